@@ -1,7 +1,7 @@
 #!/bin/bash
 # Applies every seeded change under /verif/seeded/<id>/<k>/patch.diff to /repo in turn, runs the property's
 # check (quick tier, or $TIER), restores /repo, and prints one line per change. Results go to seeded/RESULTS.tsv.
-# usage: seedeval.sh [id ...]
+# usage: [ONLY="C01/1 C02/3"] [TIER=thorough] seedeval.sh [id ...]
 cd /verif
 TIER=${TIER:-quick}
 ids="$@"; [ -z "$ids" ] && ids=$(ls seeded | grep '^C')
@@ -10,6 +10,7 @@ for id in $ids; do
   for d in seeded/$id/*/; do
     k=$(basename $d)
     [ -f $d/patch.diff ] || continue
+    if [ -n "$ONLY" ] && ! echo " $ONLY " | grep -q " $id/$k "; then continue; fi
     if ! git -C /repo apply --check $PWD/$d/patch.diff 2>/dev/null; then echo -e "$id\t$k\tPATCH-DOES-NOT-APPLY"; continue; fi
     git -C /repo apply $PWD/$d/patch.diff
     out=$(./check $id --tier $TIER 2>&1); rc=$?
